@@ -108,6 +108,8 @@ fn find_and_play_best_move(
     // several moves may have arrived since the channel was last looked at, the move to play is
     // the last one the search thread handed over, not the first one of the backlog
     while let Ok(b) = rx.try_recv() {
+        #[cfg(walleye_verif)]
+        crate::verif::io_recv(&b);
         best_move = Some(b);
     }
     #[cfg(walleye_verif)]
